@@ -391,10 +391,12 @@ func (u *UnitGen) run() {
 			exitEnvs = append(exitEnvs, pe)
 		}
 	}
-	for i, c := range u.contract.Ensures {
+	unlE := 0
+	for _, c := range u.contract.Ensures {
 		lbl := c.Label
 		if lbl == "" {
-			lbl = fmt.Sprint(i + 1)
+			unlE++
+			lbl = fmt.Sprint(unlE)
 		}
 		if len(exitEnvs) == 0 {
 			u.oblige(final, "ensures", "ensures#"+lbl, c.Text, post.evalBool(c.E))
